@@ -176,8 +176,18 @@ func randCorpusPath(r *rand.Rand, md protoreflect.MessageDescriptor) string {
 		}
 		var fd protoreflect.FieldDescriptor
 		// prefer message fields half of the time so that deep chains occur
+		wantGroup := r.IntN(5) == 0 // groups and delimited fields are rare among ~100 fields: look for one now and then
 		for try := 0; try < 8; try++ {
 			fd = fds.Get(r.IntN(fds.Len()))
+			if wantGroup {
+				if fd.Kind() == protoreflect.GroupKind {
+					break
+				}
+				try--
+				if wantGroup = r.IntN(64) != 0; wantGroup {
+					continue
+				}
+			}
 			if fd.Message() != nil || r.IntN(2) == 0 {
 				break
 			}
